@@ -53,10 +53,11 @@ class MDPPEnv(DPPEnv):
         reward_type: str = "minmax",
         **kwargs,
     ):
-        super().__init__(**kwargs)
         if generator is None:
             generator = MDPPGenerator(**generator_params)
-        self.generator = generator
+        # hand the multi-port generator to the parent, which takes the decap quota, the chip size and the PDN
+        # data from the generator it is given (instead of from a default single-port generator)
+        super().__init__(generator=generator, **kwargs)
 
         assert reward_type in [
             "minmax",
